@@ -3,7 +3,7 @@ import os, sys, time
 from . import core
 
 
-GENERATED = [("c03", "C03Chain"), ("c06", "C06Table"), ("c20", "C20Clean")]
+GENERATED = [("c01", "C01Atomic"), ("c03", "C03Chain"), ("c06", "C06Table"), ("c20", "C20Clean"), ("c20locks", "C20Locks")]
 
 
 def harness_names():
